@@ -45,6 +45,14 @@ TQ(nu, kind, li) == Enc(TRow(nu, kind, li))
 \* sign of the critical value = sign of (p - 1/2)
 CritSign(kind, li) == ZRow(kind, li).sg
 
+\* the normal quantile at EXTREME levels (tools/gen_tables_zx.py): rows in the order kind, level; the enclosure already
+\* admits a target probability formed in f64 arithmetic (one ulp of 1.0) and 2^-40 relative on the quantile
+ZQXRows == ndJsonDeserialize(TDir \o "/zqx.ndjson")
+NXLEV == Len(ZQXRows) \div 2
+ZXRow(kind, xi) == ZQXRows[(KindIdx(kind) - 1) * NXLEV + xi]
+XLevelDec(xi) == ZQXRows[xi].dec
+XLevelBits(xi) == ZQXRows[xi].bits
+
 \* designed unpaired sample pairs with non-integer effective degrees of freedom (tools/gen_tables_x.py):
 \* rows carry the samples, the exact rational dof and the quantile enclosure
 TQXRows == ndJsonDeserialize(TDir \o "/tqx.ndjson")
